@@ -272,10 +272,12 @@ type c15World struct {
 	witnessName      string
 	mirrorV          note.Verifier
 
-	fault   *c15Fault
-	counts  [c15NOps]int
-	nFired  int
-	fired   []string
+	gen int64 // bumped whenever the persistent state changes
+
+	fault    *c15Fault
+	counts   [c15NOps]int
+	nFired   int
+	fired    []string
 	inCommit bool
 
 	viol []string
@@ -350,6 +352,7 @@ func (b *c15Backend) Upload(ctx context.Context, key string, data []byte, opts *
 		// identical re-upload: keep the object (and its audit memo)
 	} else {
 		w.objs[key] = &c15Obj{data: bytes.Clone(data), compressed: o.Compressed, immutable: o.Immutable}
+		w.gen++
 	}
 	if w.inCommit && strings.Contains(key, "/tile/") {
 		w.nCutTileUploads++
@@ -380,6 +383,7 @@ func (b *c15Backend) Fetch(ctx context.Context, key string) ([]byte, error) {
 
 func (b *c15Backend) Discard(ctx context.Context, key string) error {
 	delete(b.w.objs, key)
+	b.w.gen++
 	return nil
 }
 
@@ -416,6 +420,7 @@ func (b *c15LockBackend) Create(ctx context.Context, id [sha256.Size]byte, new [
 		return fmt.Errorf("c15: lock key %x already exists", id[:4])
 	}
 	b.w.lock[id] = bytes.Clone(new)
+	b.w.gen++
 	return nil
 }
 
@@ -440,6 +445,7 @@ func (b *c15LockBackend) Replace(ctx context.Context, old ctlog.LockedCheckpoint
 		return nil, fmt.Errorf("c15: compare-and-swap failed for %x", ov.id[:4])
 	}
 	w.lock[ov.id] = bytes.Clone(new)
+	w.gen++
 	if isMirror {
 		if cp, err := c15ParseStored(new); err == nil {
 			w.hist[ov.id] = append(w.hist[ov.id], *cp)
